@@ -227,8 +227,21 @@ func (s *session) commit(r *sessionRecord, trivial bool) (err error) {
 		// manifest journal writer not yet created, create one
 		err = s.newManifest(r, nv)
 	} else if s.manifest.Size() >= s.o.GetMaxManifestFileSize() {
-		// pass nil sessionRecord to avoid over-reference table file
-		err = s.newManifest(nil, nv)
+		// Do not pass r itself, to avoid over-reference table file: the new
+		// manifest is a snapshot of nv. But the snapshot must carry the
+		// journal and sequence numbers this edit establishes, otherwise they
+		// are lost from the manifest and from the session state.
+		nr := &sessionRecord{}
+		if r.has(recJournalNum) {
+			nr.setJournalNum(r.journalNum)
+		}
+		if r.has(recPrevJournalNum) {
+			nr.setPrevJournalNum(r.prevJournalNum)
+		}
+		if r.has(recSeqNum) {
+			nr.setSeqNum(r.seqNum)
+		}
+		err = s.newManifest(nr, nv)
 	} else {
 		err = s.flushManifest(r)
 	}
